@@ -45,9 +45,9 @@ B == cfg.fs_out \div GCD(cfg.fs_in, cfg.fs_out)     \* min_chunk_out
 
 \* fft_chunks = ceil(wanted / min_chunk) on the side the chunk size refers to
 FftChunks ==
-  CASE cfg.kind = "FftFixedInOut" -> CeilDiv(cfg.chunk, A)
-    [] cfg.kind = "FftFixedIn"    -> CeilDiv(cfg.chunk \div cfg.sub, A)
-    [] OTHER                      -> CeilDiv(cfg.chunk \div cfg.sub, B)
+  CASE cfg.kind = "FftFixedInOut" -> Max(1, CeilDiv(cfg.chunk, A))
+    [] cfg.kind = "FftFixedIn"    -> Max(1, CeilDiv(cfg.chunk \div cfg.sub, A))
+    [] OTHER                      -> Max(1, CeilDiv(cfg.chunk \div cfg.sub, B))
 FftIn  == FftChunks * A
 FftOut == FftChunks * B
 
@@ -78,12 +78,11 @@ Getters == [in_next |-> InNext, in_max |-> InMax, out_next |-> OutNext, out_max 
             delay |-> Delay]
 
 Configs == {c \in [kind : Kinds, fs_in : Rates, fs_out : Rates, chunk : Chunks, sub : Subs] :
-              /\ c.sub <= c.chunk
-              /\ (c.kind = "FftFixedInOut" => c.sub = 1)}
+              (c.kind = "FftFixedInOut" => c.sub = 1)}
 
 NeededInit(c) == LET a == c.fs_in \div GCD(c.fs_in, c.fs_out)
                      b == c.fs_out \div GCD(c.fs_in, c.fs_out)
-                     k == CeilDiv(c.chunk \div c.sub, b)
+                     k == Max(1, CeilDiv(c.chunk \div c.sub, b))
                  IN CeilDiv(c.chunk, k * b) * (k * a)
 
 Init ==
